@@ -165,5 +165,48 @@ package internal
 //@ spec func voff(o bgzf.Offset) int64 = o.File<<16 | int64(o.Block)
 //@ spec func sortedNext(i *Index, r Record) bool = 0 <= recRefID(r) && recRefID(r) <= 1048576 && len(i.Refs) <= 1048576 &&
 //@     recRefID(r) >= len(i.Refs) - 1 && (recRefID(r) == len(i.Refs) - 1 ==> recStart(r) >= i.LastRecord) &&
-//@     0 <= recStart(r) && recStart(r) < recEnd(r) && recEnd(r) <= 536870911
+//@     0 <= recStart(r) && recStart(r) < recEnd(r) && recEnd(r) <= 536870910
 //@ spec func tilesBelow(iv []bgzf.Offset, o bgzf.Offset) bool = forall t in 0..len(iv) :: voff(iv[t]) <= voff(o)
+//@ spec func okOff(o bgzf.Offset) bool = 0 <= o.File && o.File < 140737488355328
+//@ spec func binsValid(bins []Bin) bool = len(bins) <= 65536 && forall a in 0..len(bins) :: (len(bins[a].Chunks) <= 1048576 &&
+//@     forall b in 0..len(bins[a].Chunks) :: (okOff(bins[a].Chunks[b].Begin) && okOff(bins[a].Chunks[b].End)))
+
+//@ func Index.Add
+//@   mode int
+//@   props C04, C15
+//@   terminates
+//@   requires r != nil && okOff(c.Begin) && okOff(c.End) && voff(c.Begin) <= voff(c.End)
+//@   requires placed ==> sortedNext(i, r)
+//@   requires !placed ==> (0 - 1 <= recStart(r) && recStart(r) <= 536870910 && 0 - 1 <= recEnd(r) && recEnd(r) <= 536870910)
+//@   requires 0 <= i.LastRecord && i.LastRecord <= 536870911
+//@   requires i.Unmapped != nil ==> (0 <= *i.Unmapped && *i.Unmapped < 4611686018427387904)
+//@   requires (placed && recRefID(r) == len(i.Refs) - 1) ==> (tilesBelow(i.Refs[recRefID(r)].Intervals, c.Begin) &&
+//@       binsValid(i.Refs[recRefID(r)].Bins) && len(i.Refs[recRefID(r)].Intervals) <= 32768 &&
+//@       (len(i.Refs[recRefID(r)].Intervals) == 0 || len(i.Refs[recRefID(r)].Intervals) > div(i.LastRecord, 16384)) &&
+//@       (i.Refs[recRefID(r)].Stats != nil ==> (i.Refs[recRefID(r)].Stats.Mapped < 4611686018427387904 &&
+//@           i.Refs[recRefID(r)].Stats.Unmapped < 4611686018427387904)))
+//@   modifies all(i), arrays(RefIndex), arrays(Bin), arrays(bgzf.Chunk), arrays(bgzf.Offset), objects(ReferenceStats), objects(uint64)
+//@   ghost wa int
+//@   ghost wb int
+//@   at stmt "ref.Bins[i].Chunks[j].End = c.End" ghost wa = i; wb = j
+//@   at stmt "ref.Bins[i].Chunks = append(ref.Bins[i].Chunks, c)" ghost wa = i; wb = len(ref.Bins[i].Chunks) - 1
+//@   at stmt "ref.Bins = append(ref.Bins, Bin{" ghost wa = len(ref.Bins) - 1; wb = 0
+//@   loop 0 invariant @scan 0 <= rangeindex + 1 && rangeindex + 1 <= len(ref.Bins)
+//@   loop 1 invariant @scan 0 <= rangeindex + 1 && rangeindex + 1 <= 4611686018427387904
+//@   loop 2 invariant @fill biv <= iv && iv <= eiv + 1 && fresh(intvs) && len(intvs) == eiv + 1 &&
+//@       (forall t in 0..iv :: voff(intvs[t]) <= voff(c.Begin))
+//@   loop 2 decreases eiv + 1 - iv
+//@   ensures[C04] @neverfails result == nil
+//@   ensures[C04] @refs placed ==> (len(i.Refs) == recRefID(r) + 1 && i.LastRecord == recStart(r))
+//@   ensures[C04] @tiles placed ==> forall t int :: (div(recStart(r), 16384) <= t && t <= div(recEnd(r) - 1, 16384)) ==>
+//@       (t < len(i.Refs[recRefID(r)].Intervals) && voff(i.Refs[recRefID(r)].Intervals[t]) <= voff(c.Begin))
+//@   ensures[C04] @tilesbelow placed ==> (tilesBelow(i.Refs[recRefID(r)].Intervals, c.Begin) &&
+//@       len(i.Refs[recRefID(r)].Intervals) > div(i.LastRecord, 16384))
+//@   ensures[C04] @bin placed ==> (0 <= wa && wa < len(i.Refs[recRefID(r)].Bins) && i.Refs[recRefID(r)].Bins[wa].Bin == bin &&
+//@       0 <= wb && wb < len(i.Refs[recRefID(r)].Bins[wa].Chunks) && voff(c.End) <= voff(i.Refs[recRefID(r)].Bins[wa].Chunks[wb].End))
+//@   ensures[C15] @mapped placed ==> (i.Refs[recRefID(r)].Stats != nil && i.Refs[recRefID(r)].Stats.Mapped ==
+//@       ite(recRefID(r) == old(len(i.Refs)) - 1 && old(i.Refs[recRefID(r)].Stats) != nil, old(i.Refs[recRefID(r)].Stats.Mapped), 0) + ite(mapped, 1, 0))
+//@   ensures[C15] @unmapped placed ==> (i.Refs[recRefID(r)].Stats != nil && i.Refs[recRefID(r)].Stats.Unmapped ==
+//@       ite(recRefID(r) == old(len(i.Refs)) - 1 && old(i.Refs[recRefID(r)].Stats) != nil, old(i.Refs[recRefID(r)].Stats.Unmapped), 0) + ite(mapped, 0, 1))
+//@   ensures[C15] @span placed ==> voff(i.Refs[recRefID(r)].Stats.Chunk.End) == voff(c.End)
+//@   ensures[C15] @unplaced !placed ==> (i.Unmapped != nil && *i.Unmapped == ite(old(i.Unmapped) == nil, 0, old(*i.Unmapped)) + 1)
